@@ -95,7 +95,7 @@ Proof. destruct fx; reflexivity. Qed.
 
 Lemma ctx_t_default fx :
   ctx_t fx = mkT default_TextAnchor default_Baseline (Some default_FontSize) (Some default_FontWeight)
-                 default_FontStyle (if fx then default_FontFamily else []) (Some default_LetterSpacing).
+                 default_FontStyle (if fx then default_FontFamily else root_FontFamily) (Some default_LetterSpacing).
 Proof. destruct fx; reflexivity. Qed.
 
 (* the attributes in effect inside a <g> that Push builds under pen p / font f *)
@@ -114,14 +114,12 @@ Qed.
 Lemma gctx_t_spec fx f : gctx_t fx f = spec_font fx f.
 Proof.
   unfold gctx_t. rewrite ctx_t_default. unfold over_t, nd_tattr, spec_font; simpl.
-  rewrite !pick_nds. f_equal.
+  f_equal; try apply pick_nds.
   - destruct (PrimFloat.eqb (f_size f) default_FontSize) eqn:E; simpl; [|reflexivity].
     apply feqb_default_size in E. congruence.
   - destruct (PrimFloat.eqb (f_weight f) default_FontWeight) eqn:E; simpl; [|reflexivity].
     apply feqb_default_weight in E. congruence.
-  - destruct fx.
-    + apply pick_nds.
-    + destruct (nds default_FontFamily (f_family f)); reflexivity.
+  - destruct fx; [apply pick_nds | reflexivity].
   - destruct (same_text (f_ls f) default_LetterSpacing) eqn:E; simpl; [|reflexivity].
     apply same_text_eq in E. congruence.
 Qed.
